@@ -1416,6 +1416,21 @@ def unit_path():
         if (p == Path(PathNode(n, i) for n, i in nodes)) is not True or (p == q) is not False:
             bad.append(f"equality at depth {depth}")
     ob("append-slice-index-text-equality", not bad, "; ".join(bad[:3]))
+    bad = []
+    A = [PathNode("a"), PathNode("a", 0), PathNode("a", 1), PathNode("b"), PathNode("b", 1), PathNode("", None)]
+    for i, x in enumerate(A):
+        for j, y in enumerate(A):
+            if (x == y) is not (i == j) or (x != y) is not (i != j):
+                bad.append(f"PathNode {x.name!r}[{x.index}] == {y.name!r}[{y.index}] gives {x == y}")
+            px, py = Path((PathNode(""), PathNode("p"), x)), Path((PathNode(""), PathNode("p"), y))
+            if (px == py) is not (i == j):
+                bad.append(f"Path equality with last nodes {i},{j}")
+            if i == j and (hash(px) != hash(Path((PathNode(""), PathNode("p"), PathNode(x.name, x.index)))) or PathNode(x.name, x.index) != x):
+                bad.append(f"hash / rebuilt node {i}")
+    p3 = Path((PathNode(""), PathNode("p"), PathNode("q", 3)))
+    if p3 == p3[:-1] or p3[:-1] == p3 or p3 == tuple(tuple.__iter__(p3))[:2]:
+        bad.append("a path equals its own prefix")
+    ob("nodes-and-paths-are-equal-iff-names-and-indices-agree", not bad, "; ".join(bad[:3]))
     r = Path(PathNode(PATH_NODE_ROOT_NAME))
     ob("root-path", key(r) == (("", None),) and r == ROOT_PATH and Path.from_string(".") == r and key(Path.from_string(".")) == (("", None),) and str(r) == "", f"{key(Path.from_string('.'))}")
     ob("from-string", key(Path.from_string(".a.b")) == (("", None), ("a", None), ("b", None)), str(key(Path.from_string(".a.b"))))
